@@ -260,7 +260,7 @@ func TestC10Cache(t *testing.T) {
 		return c
 	}
 	Drive(t, "C10", gen, func(tb report.TB, rep *report.Reporter, c cacheCase) {
-		w, err := NewCWorld(1, c.Seed)
+		w, err := NewCWorld(2, c.Seed)
 		if err != nil {
 			tb.Fatalf("harness: %v", err)
 		}
@@ -374,6 +374,79 @@ func TestC10Cache(t *testing.T) {
 		if aspect, detail := refmodel.Diff(refmodel.Interpret(rops), incremental); aspect != "" {
 			if rep.Fail(tb, "C10/cache/snapshot/"+aspect, detail, c) {
 				return
+			}
+		}
+		// ---- a second user edits the same bug concurrently, several operations per commit, and the histories are
+		// merged: the state is still the fold of the operations in the documented order (packs by edit time and
+		// pack id, operations of a pack in the order they were made)
+		if c.Seed%2 == 0 {
+			r1 := w.R[1]
+			if _, err := r.Cache.Push("origin"); err != nil {
+				tb.Fatalf("harness: push: %v", err)
+			}
+			if err := r1.Cache.Pull("origin"); err != nil {
+				tb.Fatalf("harness: pull: %v", err)
+			}
+			other, _ := r1.Cache.GetUserIdentity()
+			theirs, err := r1.Cache.Bugs().Resolve(bc.Id())
+			if err != nil {
+				tb.Fatalf("harness: %v", err)
+			}
+			for k := 0; k < 4; k++ {
+				if _, _, err := theirs.AddCommentRaw(other, int64(8_000_000+k), fmt.Sprintf("theirs %d", k), nil, nil); err != nil {
+					tb.Fatalf("harness: %v", err)
+				}
+			}
+			_, _ = theirs.SetTitleRaw(other, 8_000_010, "draft title of the other user", nil)
+			_, _ = theirs.SetTitleRaw(other, 8_000_011, "final title of the other user", nil)
+			if err := theirs.Commit(); err != nil {
+				tb.Fatalf("harness: %v", err)
+			}
+			for k := 0; k < 3; k++ {
+				if _, _, err := bc.AddCommentRaw(user, int64(8_100_000+k), fmt.Sprintf("mine %d", k), nil, nil); err != nil {
+					tb.Fatalf("harness: %v", err)
+				}
+			}
+			_, _, _ = bc.ChangeLabelsRaw(user, 8_100_010, []string{"merged-label"}, nil, nil)
+			_, _, _ = bc.ChangeLabelsRaw(user, 8_100_011, nil, []string{"merged-label"}, nil)
+			if err := bc.Commit(); err != nil {
+				tb.Fatalf("harness: %v", err)
+			}
+			if _, err := r1.Cache.Push("origin"); err != nil {
+				tb.Fatalf("harness: push: %v", err)
+			}
+			if err := r.Cache.Pull("origin"); err != nil {
+				rep.Fail(tb, "C10/cache/pull-fails/"+Normalize(err.Error()), err.Error(), c)
+				return
+			}
+			if bc, err = r.Cache.Bugs().Resolve(bc.Id()); err != nil {
+				tb.Fatalf("harness: %v", err)
+			}
+			rep.Class("merged-with-a-concurrent-multi-operation-commit", 1)
+			merged := ProjectSnapshot(bc.Snapshot())
+			merged.MustActors, merged.MayActors = merged.Actors, merged.Actors
+			d2, err := ondisk.ReadDAG(r.Repo, "refs/bugs/"+string(bc.Id()))
+			if err != nil {
+				tb.Fatalf("harness: %v", err)
+			}
+			rops2, err := d2.ROps()
+			if err != nil {
+				tb.Fatalf("harness: %v", err)
+			}
+			if aspect, detail := refmodel.Diff(refmodel.Interpret(rops2), merged); aspect != "" {
+				if rep.Fail(tb, "C10/cache/merged-snapshot/"+aspect, fmt.Sprintf("%d operations after the merge\n%s", len(rops2), detail), c) {
+					return
+				}
+			}
+			again, err := bug.Read(r.Repo, bc.Id())
+			if err != nil {
+				rep.Fail(tb, "C10/cache/unreadable/"+Normalize(err.Error()), err.Error(), c)
+				return
+			}
+			if aspect, detail := refmodel.Diff(merged, ProjectSnapshot(again.Compile())); aspect != "" {
+				if rep.Fail(tb, "C10/cache/merged-bug-reads-differently-the-second-time/"+aspect, detail, c) {
+					return
+				}
 			}
 		}
 		// ---- the state the cache keeps across runs. This run ends normally; the next one edits the bug and is
